@@ -1,5 +1,6 @@
 import GrVerif.Proofs.Fsm
 import GrVerif.Proofs.Reverse
+import GrVerif.Proofs.RunPasses
 set_option linter.unusedVariables false
 set_option linter.unusedSimpArgs false
 namespace GrVerif.Pass
@@ -105,15 +106,13 @@ theorem runRange_growth (passes : Array PassT) (c : Ctx) (lo hi fuel : Nat) (c' 
   · left; omega
   · right; exact h1
 
-theorem bidiStep_numGlyphs (c : Ctx) : (bidiStep c).seg.numGlyphs = c.seg.numGlyphs := by
-  unfold bidiStep
-  split
-  · exact (reverseSlots_same c.seg _).numGlyphs
-  · rfl
+theorem bidiStep_numGlyphs (c : Ctx) (aMirror : Nat) : (bidiStep c aMirror).seg.numGlyphs = c.seg.numGlyphs :=
+  bidiStep_ind (fun s => s.numGlyphs = c.seg.numGlyphs) aMirror (fun s mark hs => (reverseSlots_same s mark).numGlyphs.trans hs)
+    (fun gadv s i g hs => hs) c rfl
 
 /-- **growth bound of a call of `Silf::runGraphite`**, with the bidi step or without -/
-theorem runPhase_growth (passes : Array PassT) (bPass : Nat) (c : Ctx) (lo hi : Nat) (dobidi : Bool) (fuel : Nat) (c' : Ctx)
-    (h : runPhase passes bPass c lo hi dobidi fuel = .ok (some c')) (hpos : 0 ≤ c.seg.numGlyphs) :
+theorem runPhase_growth (passes : Array PassT) (bPass : Nat) (c : Ctx) (lo hi : Nat) (dobidi : Bool) (fuel : Nat) (c' : Ctx) {aMirror : Nat}
+    (h : runPhase passes bPass c lo hi dobidi fuel aMirror = .ok (some c')) (hpos : 0 ≤ c.seg.numGlyphs) :
     c'.seg.numGlyphs ≤ c.seg.numGlyphs * 64 ∨ c'.seg.numGlyphs = c.seg.numGlyphs := by
   unfold runPhase at h
   simp only [] at h
